@@ -23,7 +23,7 @@ import (
 // response incl. the header; body: after c bytes of the event stream) or ends by returning from
 // the handler.  See coq/theories/RunE2E.v for the formats.
 //
-// scenario : (n<replayer kind: 0 finite/512 manual IDs, 1 valid manual, 2 finite/512 auto, 3 valid auto, 4 finite/6 manual, 5 finite/6 auto> (step ...))
+// scenario : (n<kind> (step ...) n<OnSession returns its own topics>)   kind = (n<replayer kind: 0 finite/512 manual IDs, 1 valid manual, 2 finite/512 auto, 3 valid auto, 4 finite/6 manual, 5 finite/6 auto> (step ...))
 //   step = (n0 n<k> n<payload kind>)  publish k messages
 //        | (n1 n<c>)   cut the current/next response after c more BODY bytes read by the client
 //        | (n2 n<c>)   sever the current/next transport connection after c more RAW bytes read by the client
@@ -33,6 +33,7 @@ import (
 //        | (n5 n<s>)   (ValidReplayer with automatic IDs only) once caught up, advance the replayer's clock by s seconds (TTL 1000 s)
 //        | (n6)        cut the connection silently (client: timeout; server: nothing, writes swallowed) and wait for the resubscription
 //        | (n7)        writes on silently cut connections start to fail
+//        | (n8 n<c>)   the peer's FIN: after c more raw bytes the response ends cleanly right after the next line feed
 // line written: input = (scenario (published ...) (attempt ...) flags), observed = n1
 //   published = (x<id> x<type> (x<data string> ...))            in publish order
 //   attempt   = (hdropt n<outcome: 0 body read, 1 no response> x<body bytes read> n<ending: 0 EOF, 1 error> ((x<id> x<type> x<data>) ...))
@@ -40,7 +41,7 @@ import (
 
 func init() {
 	families["e2e"] = family{gen: genE2E, exec: execE2E, post: func(in, obs val.V) (val.V, val.V) {
-		return val.L(in.At(0), in.At(1), obs.At(0), obs.At(1), obs.At(2)), val.N(1)
+		return val.L(in.At(0), in.At(1), obs.At(0), obs.At(1), obs.At(2), val.Bool(in.At(2).Truth() || in.At(5).Truth())), val.N(1)
 	}}
 }
 
@@ -72,12 +73,31 @@ func (pipeAddr) String() string  { return "pipe" }
 type cutConn struct {
 	net.Conn
 	budget *atomic.Int64 // <0: unlimited
+	fin    *atomic.Int64 // >=0: after that many more bytes, pass bytes on up to and including the next LF, then end the stream like a FIN (io.EOF)
 	dead   atomic.Bool
+	finNow bool
 }
 
 func (c *cutConn) Read(p []byte) (int, error) {
 	if c.dead.Load() {
 		return 0, errors.New("read: connection timed out")
+	}
+	if c.finNow {
+		return 0, io.EOF
+	}
+	if f := c.fin.Load(); f >= 0 {
+		// byte at a time, so that the stream ends exactly after a line feed
+		n, err := c.Conn.Read(p[:1])
+		if n == 1 {
+			if f > 0 {
+				c.fin.Store(f - 1)
+			} else if p[0] == '\n' {
+				c.fin.Store(-1)
+				c.finNow = true
+				c.Conn.Close()
+			}
+		}
+		return n, err
 	}
 	b := c.budget.Load()
 	if b == 0 {
@@ -142,6 +162,7 @@ type e2eRun struct {
 	received  int // events received in total
 	bodyCut   atomic.Int64
 	rawCut    atomic.Int64
+	finCut    atomic.Int64
 	cancelCur atomic.Pointer[context.CancelFunc]
 	curSrv    atomic.Pointer[srvConn]
 	curCli    atomic.Pointer[cutConn]
@@ -250,9 +271,15 @@ func e2ePayload(kind, seq int) (typ string, data []string) {
 func execE2E(in val.V) val.V {
 	kind := int(in.At(0).Num())
 	steps := in.At(1).Items()
+	// in.At(2): OnSession returns its own topics (a freshly generated scenario has it there; a replayed line has the
+	// published list there and the flag in position 5)
+	if in.Len() > 3 {
+		in = val.L(in.At(0), in.At(1), in.At(5))
+	}
 	run := &e2eRun{lis: &pipeListener{ch: make(chan net.Conn), closed: make(chan struct{})}}
 	run.bodyCut.Store(-1)
 	run.rawCut.Store(-1)
+	run.finCut.Store(-1)
 
 	var replayer sse.Replayer
 	auto := kind == 2 || kind == 3 || kind == 5
@@ -277,6 +304,10 @@ func execE2E(in val.V) val.V {
 	defer sse.VerifSetHook(nil)
 	joe := &sse.Joe{Replayer: replayer}
 	srv := &sse.Server{Provider: joe}
+	if in.At(2).Truth() {
+		// the application chooses the topics itself (here: the default topic, spelled out)
+		srv.OnSession = func(http.ResponseWriter, *http.Request) ([]string, bool) { return []string{sse.DefaultTopic}, true }
+	}
 	handler := http.HandlerFunc(func(w http.ResponseWriter, r *http.Request) {
 		ctx, cancel := context.WithCancel(r.Context())
 		defer cancel()
@@ -297,7 +328,7 @@ func execE2E(in val.V) val.V {
 			case <-ctx.Done():
 				return nil, ctx.Err()
 			}
-			cc := &cutConn{Conn: c1, budget: &run.rawCut}
+			cc := &cutConn{Conn: c1, budget: &run.rawCut, fin: &run.finCut}
 			run.mu.Lock()
 			run.srvConns = append(run.srvConns, sc)
 			run.mu.Unlock()
@@ -430,6 +461,10 @@ func execE2E(in val.V) val.V {
 					time.Sleep(100 * time.Microsecond)
 				}
 			}
+		case 8:
+			// the peer's FIN: after c more raw bytes the stream ends cleanly (io.EOF) right after the next line feed -
+			// inside an event whenever the event has several lines
+			run.finCut.Store(int64(st.At(1).Int()))
 		case 5:
 			// the replayer's clock advances (events the client already has may expire); only with automatic IDs, where a
 			// resume point that is gone means "everything still stored", and only once the client has caught up
@@ -465,6 +500,7 @@ func execE2E(in val.V) val.V {
 	// no more faults; the client must catch up with everything published
 	run.bodyCut.Store(-1)
 	run.rawCut.Store(-1)
+	run.finCut.Store(-1)
 	if caughtUp {
 		caughtUp = waitRecv(owed(), 10*time.Second)
 	}
@@ -529,6 +565,9 @@ func genE2EScenario(r *rng.R, thorough bool) val.V {
 			}
 			steps = append(steps, val.L(val.N(1), val.Int(c)))
 			pub() // something for the cut to fall into
+		case x < 56:
+			steps = append(steps, val.L(val.N(8), val.Int(r.Intn(260))))
+			pub()
 		case x < 75:
 			c := r.Intn(200) // the response head is about 120 bytes: inside it, at its end, inside the first chunk
 			if r.Intn(3) == 0 {
@@ -556,7 +595,7 @@ func genE2EScenario(r *rng.R, thorough bool) val.V {
 			steps = append(steps, val.L(val.N(4)))
 		}
 	}
-	return val.L(val.Int(kind), val.List(steps))
+	return val.L(val.Int(kind), val.List(steps), val.Bool(r.Bool()))
 }
 
 func genE2E(c *Ctx) {
@@ -598,6 +637,16 @@ func genE2E(c *Ctx) {
 			steps = append(steps, val.L(val.N(0), val.N(1), val.N(2)), val.L(val.N(4)), val.L(val.N(1), val.N(0)), val.L(val.N(0), val.N(2), val.N(3)), val.L(val.N(4)))
 		}
 		scen = append(scen, val.L(val.N(3), val.List(steps)))
+	}
+	// directed: FIN-style ends right after a line feed, at many offsets, with multi-line events in flight
+	for kind := 0; kind < 4; kind++ {
+		for off := 0; off < 6; off++ {
+			steps := []val.V{}
+			for i := 0; i < 5; i++ {
+				steps = append(steps, val.L(val.N(8), val.Int(off*7+i*13)), val.L(val.N(0), val.N(2), val.N(1)), val.L(val.N(0), val.N(1), val.N(4)), val.L(val.N(4)))
+			}
+			scen = append(scen, val.L(val.Int(kind), val.List(steps), val.Bool(off%2 == 0)))
+		}
 	}
 	for i := 0; i < n; i++ {
 		scen = append(scen, genE2EScenario(c.R, c.Thorough))
